@@ -195,7 +195,8 @@ def rayon_program(kind, which, ptr):
 
 def run(ctx, facts, deps=None, work=None, repo=None):
     feats = set(facts.features)
-    ctx.rule("P1", "every exported function that can reach the allocation of a value requires Send + Sync of the key (and value) type", floor=30)
+    ctx.rule("P1", "every exported function that can reach the allocation of a value requires Send + Sync of the key (and value) type", floor=25,
+             floor_note="29 inserting entry points without features, 37 with serde+rayon")
     ctx.rule("P2", "unsafe impl Send/Sync for BinEntry<K,V> is conditional on K,V: Send resp. Sync; no unconditional one mentions K/V", floor=2)
     ctx.rule("P3", "read entry points carry no Send/Sync bound on K, V, T", floor=15)
     ctx.rule("P4", "witnesses: Rc key / Rc value rejected with E0277/E0599 at every inserting entry point; Arc twin compiles; lookups on Rc maps compile",
